@@ -100,6 +100,30 @@ static void part_checker(const Args &a) {
   }
 }
 
+// ---- Part A2: the clock moves while a token is verified (one second per reading of time()): tokens that expire / become valid within the
+// next seconds. Whatever verdict comes out, the contract between return value, flag and message holds.
+static std::string run_ticking(int prov, int ci, int k, int what, long step) {
+  const KeySpec &oct = pool().get("oct64"); const long T = 1700000000;
+  std::string pay = what == 0 ? "{\"iss\":\"issuer\",\"exp\":" + std::to_string(T + k) + "}" : what == 1 ? "{\"iss\":\"issuer\",\"nbf\":" + std::to_string(T + k) + "}" : "{\"iss\":\"issuer\",\"nbf\":" + std::to_string(T + k) + ",\"exp\":" + std::to_string(T + k + 1) + "}";
+  jwt_alg_t alg = CCFG[ci].alg == JWT_ALG_HS512 || CCFG[ci].key == 7 ? JWT_ALG_HS512 : JWT_ALG_HS256;
+  std::string tok = ref_token(oct, alg, std::string("{\"alg\":\"") + jwt_alg_str(alg) + "\"}", pay);
+  set_provider(prov); set_now(T); VCtx cx{VCB_NONE}; jwt_checker_t *ch = mk_checker(CCFG[ci], &cx);
+  set_ticking(step); int ret = jwt_checker_verify(ch, tok.c_str()); set_ticking(0); set_now(T);
+  std::string r = contract_checker(ret, ch); stats().cls(ret ? "moving-clock:rejected" : "moving-clock:accepted");
+  if (!r.empty()) r += std::string(":moving-clock:ret=") + std::to_string(ret) + ",flag=" + std::to_string(jwt_checker_error(ch)) + ",msg='" + (jwt_checker_error_msg(ch) ? jwt_checker_error_msg(ch) : "") + "'";
+  jwt_checker_free(ch); return r;
+}
+static void part_ticking(const Args &a) {
+  Stats &st = stats(); int idx = 0; static const int CIS[] = {1, 2, 10, 6};   // configurations with an oct key (HS256 / HS512, with and without callback / iss / leeway)
+  for (int prov = 0; prov < 2; prov++) for (int ci : CIS) for (int k = -7; k <= 8; k++) for (int what = 0; what < 3; what++) for (long step : {1L, 2L, 5L}) {
+    if ((idx++ % a.nworkers) != a.worker) continue;
+    CASE = "{\"part\":\"moving-clock\",\"prov\":" + std::to_string(prov) + ",\"cfg\":" + std::to_string(ci) + ",\"k\":" + std::to_string(k) + ",\"what\":" + std::to_string(what) + ",\"step\":" + std::to_string(step) + "}";
+    std::string r = run_ticking(prov, ci, k, what, step);
+    st.evaluations++; st.cls("moving-clock-cells"); st.nontrivial(mix(mix(fnv("tick"), prov * 16 + ci), mix(k + 100, what * 8 + step)));
+    if (!r.empty()) st.violation("C14:" + r.substr(0, r.find(":moving-clock")) + ":moving-clock", "checker error contract broken while the clock moves: " + r, CASE);
+  }
+}
+
 // ---- Part C: enumerated builder failure causes
 struct BCase { const char *cause; jwt_alg_t alg; int key; int cb; bool expect_null; };
 static void part_builder(const Args &a) {
@@ -216,7 +240,7 @@ static std::string run_builder_hist(int prov, const std::vector<BOp> &ops) {
 static std::string cops_json(const std::vector<COp> &ops) { std::string s = "["; for (size_t i = 0; i < ops.size(); i++) s += (i ? "," : "") + std::string("[") + std::to_string(ops[i].k) + "," + std::to_string(ops[i].a) + "," + std::to_string(ops[i].b) + "]"; return s + "]"; }
 
 int main(int argc, char **argv) {
-  Args a = parse_args(argc, argv);
+  Args a = parse_args(argc, argv); vo::allow_noctx() = true;
   init_keys(false); init_tokens(); more_tokens();
   cur_case() = [] { return CASE.empty() ? std::string("{}") : CASE; };
   Stats &st = stats();
@@ -228,12 +252,13 @@ int main(int argc, char **argv) {
       const char *tc = json_string_value(json_object_get(j.p, "token_class")); int ti = -1; for (size_t i = 0; i < TOKENS.size(); i++) if (TOKENS[i].first == tc) ti = (int)i;
       if (ti >= 0) { ONLY_CELL[0] = (int)json_integer_value(json_object_get(j.p, "prov")); ONLY_CELL[1] = (int)json_integer_value(json_object_get(j.p, "cfg")); ONLY_CELL[2] = ti; ONLY_CELL[3] = (int)json_integer_value(json_object_get(j.p, "reuse")); }
       part_checker(one); }
+    else if (pt == "moving-clock") { auto gi = [&](const char *k) { return (int)json_integer_value(json_object_get(j.p, k)); }; std::string r = run_ticking(gi("prov"), gi("cfg"), gi("k"), gi("what"), gi("step")); if (!r.empty()) fprintf(stderr, "replay: %s\n", r.c_str()); return r.empty() ? 0 : 3; }
     else if (pt == "checker") part_checker(one); else if (pt == "builder") part_builder(one); else if (pt == "keyring") part_keyring(one); else if (pt == "setget") { one.worker = 1 % one.nworkers; part_setget(one); }
     else if (pt == "checker-history") { std::vector<COp> ops; size_t i; json_t *e; json_array_foreach(json_object_get(j.p, "ops"), i, e) ops.push_back({(int)json_integer_value(json_array_get(e, 0)), (int)json_integer_value(json_array_get(e, 1)), (int)json_integer_value(json_array_get(e, 2))}); return run_checker_hist((int)json_integer_value(json_object_get(j.p, "prov")), ops).empty() ? 0 : 3; }
     else if (pt == "builder-history") { std::vector<BOp> ops = bops_from_json(json_object_get(j.p, "ops")); return run_builder_hist((int)json_integer_value(json_object_get(j.p, "prov")), ops).empty() ? 0 : 3; }
     return st.violations.empty() ? 0 : 3;
   }
-  part_checker(a); part_builder(a); part_keyring(a); part_setget(a);
+  part_checker(a); part_ticking(a); part_builder(a); part_keyring(a); part_setget(a);
   uint64_t n = a.thorough() ? 100000 : 1200;
   std::string params = "seed=" + std::to_string(a.seed * 1000 + a.worker) + " max_success=" + std::to_string(n) + " max_size=100";
   setenv("RC_PARAMS", params.c_str(), 1);
